@@ -14,6 +14,7 @@ WOPT='pkg/writer/options.go'; ROPT='pkg/reader/options.go'
 def m(name,file,find,replace,expect='',why=''): return dict(name=name,file=file,find=find,replace=replace,expect=expect,why=why)
 C={}
 C['C01']=dict(mutants=[
+ m('last-supplier-wins',S23,'\t\tif len(node.Suppliers) > 0 && node.Suppliers[0] != nil {\n\t\t\t// TODO(degradation): URL, Phone are lost if set\n\t\t\t// TODO(degradation): If is more than one supplier, it will be lost\n\t\t\tp.PackageSupplier = &spdx.Supplier{\n\t\t\t\tSupplier:     node.Suppliers[0].ToSPDX2ClientString(),\n\t\t\t\tSupplierType: node.Suppliers[0].ToSPDX2ClientOrg(),\n\t\t\t}\n\t\t}\n','\t\tvar supplier *sbom.Person\n\t\tfor _, sp := range node.Suppliers {\n\t\t\tif sp == nil {\n\t\t\t\tcontinue\n\t\t\t}\n\t\t\tsupplier = sp\n\t\t}\n\t\tif supplier != nil {\n\t\t\tp.PackageSupplier = &spdx.Supplier{\n\t\t\t\tSupplier:     supplier.ToSPDX2ClientString(),\n\t\t\t\tSupplierType: supplier.ToSPDX2ClientOrg(),\n\t\t\t}\n\t\t}\n','first-actor-written'),
  m('edge-label-typo',EDGE,'\t\treturn "AMENDS"\n','\t\treturn "AMEND"\n','table-inverse'),
  m('hash-reader-swapped',HASH,'\tcase common.SHA1:\n\t\treturn HashAlgorithm_SHA1','\tcase common.SHA1:\n\t\treturn HashAlgorithm_SHA256','table-inverse'),
  m('endpoint-lowercased',S23,'RefA:         common.MakeDocElementID("", e.From),','RefA:         common.MakeDocElementID("", strings.ToLower(e.From)),','verbatim-identifiers'),
@@ -25,6 +26,8 @@ C['C01']=dict(mutants=[
  m('files-skip-inverted',S23,'if node == nil || node.Type == sbom.Node_PACKAGE {','if node == nil || node.Type != sbom.Node_PACKAGE {','loop-totality'),
  m('reader-uses-old-edge-table',U23,'Type: sbom.EdgeTypeFromSPDX2(r.Relationship),','Type: sbom.EdgeTypeFromSPDX(r.Relationship),','table-inverse'),
 ],benign=[
+ m('first-supplier-loop',S23,'\t\tif len(node.Suppliers) > 0 && node.Suppliers[0] != nil {\n\t\t\t// TODO(degradation): URL, Phone are lost if set\n\t\t\t// TODO(degradation): If is more than one supplier, it will be lost\n\t\t\tp.PackageSupplier = &spdx.Supplier{\n\t\t\t\tSupplier:     node.Suppliers[0].ToSPDX2ClientString(),\n\t\t\t\tSupplierType: node.Suppliers[0].ToSPDX2ClientOrg(),\n\t\t\t}\n\t\t}\n','\t\tvar supplier *sbom.Person\n\t\tfor _, sp := range node.Suppliers {\n\t\t\tif sp == nil {\n\t\t\t\tcontinue\n\t\t\t}\n\t\t\tsupplier = sp\n\t\t\tbreak\n\t\t}\n\t\tif supplier != nil {\n\t\t\tp.PackageSupplier = &spdx.Supplier{\n\t\t\t\tSupplier:     supplier.ToSPDX2ClientString(),\n\t\t\t\tSupplierType: supplier.ToSPDX2ClientOrg(),\n\t\t\t}\n\t\t}\n'),
+
  m('rename-loop-var',S23,'\t\tfor _, dest := range e.To {\n\t\t\trel := spdx.Relationship{\n\t\t\t\tRefA:         common.MakeDocElementID("", e.From),\n\t\t\t\tRefB:         common.MakeDocElementID("", dest),','\t\tfor _, target := range e.To {\n\t\t\trel := spdx.Relationship{\n\t\t\t\tRefA:         common.MakeDocElementID("", e.From),\n\t\t\t\tRefB:         common.MakeDocElementID("", target),'),
  m('getter-for-id',S23,'PackageSPDXIdentifier: common.ElementID(node.Id),','PackageSPDXIdentifier: common.ElementID(node.GetId()),'),
  m('reorder-cases',EDGE,'\tcase Edge_amends:\n\t\treturn "AMENDS"\n\tcase Edge_ancestor:\n\t\treturn "ANCESTOR_OF"\n','\tcase Edge_ancestor:\n\t\treturn "ANCESTOR_OF"\n\tcase Edge_amends:\n\t\treturn "AMENDS"\n'),
@@ -138,6 +141,7 @@ C['C12']=dict(mutants=[
  m('clone-via-append',NODE,'\t\tFileTypes:          slices.Clone(n.FileTypes),','\t\tFileTypes:          append([]string(nil), n.FileTypes...),'),
 ])
 C['C13']=dict(mutants=[
+ m('comparator-not-an-order',NODE,'\tsort.Strings(keys)\n\tret := \"\"\n\tfor _, algo := range keys {','\tsort.Slice(keys, func(i, j int) bool {\n\t\treturn len(keys[i]) < len(keys[j]) || keys[i] < keys[j]\n\t})\n\tret := \"\"\n\tfor _, algo := range keys {','comparator-is-an-order'),
  m('extref-hash-by-position',EXT,'\t\tfor _, algo := range algos {\n\t\t\thashes = append(hashes, fmt.Sprintf("%d:%s", algo, e.Hashes[int32(algo)]))','\t\tfor i, algo := range algos {\n\t\t\thashes = append(hashes, fmt.Sprintf("%d:%s", algo, e.Hashes[int32(i)]))','schema-map-key'),
  m('drop-sort',NODE,'\tsort.Strings(pairs)\n\treturn strings.Join(pairs, ":")','\treturn strings.Join(pairs, ":")','sorted-before-ordered-sink'),
  m('licenses-fall-to-default',NODE,'\tcase "protobom.protobom.Node.licenses",\n','\tcase "protobom.protobom.Node.licences",\n','encode-exhaustive'),
@@ -146,6 +150,8 @@ C['C13']=dict(mutants=[
  m('dates-to-nanosecond',NODE,'n.ReleaseDate.AsTime().Unix()))','n.ReleaseDate.AsTime().UnixNano()))','date-granularity'),
  m('range-stops-early',NODE,'\t\treturn true\n\t})\n\n\tsort.Strings(pairs)','\t\treturn len(pairs) < 64\n\t})\n\n\tsort.Strings(pairs)','encode-exhaustive'),
 ],benign=[
+ m('lexicographic-comparator',NODE,'\tsort.Strings(keys)\n\tret := \"\"\n\tfor _, algo := range keys {','\tsort.Slice(keys, func(i, j int) bool {\n\t\treturn len(keys[i]) < len(keys[j]) || (len(keys[i]) == len(keys[j]) && keys[i] < keys[j])\n\t})\n\tret := \"\"\n\tfor _, algo := range keys {'),
+
  m('slices-sort',NODE,'\tsort.Strings(pairs)\n\treturn strings.Join(pairs, ":")','\tslices.Sort(pairs)\n\treturn strings.Join(pairs, ":")'),
 ])
 C['C14']=dict(mutants=[
